@@ -5,6 +5,7 @@ X02Quick ==
             {C(1), C(-1), CH, C(2), C(0), SP(<<Q(1, 2), R(2)>>), SF(<<R(1), Q(-1, 2), R(2)>>)},
             {TRUE, FALSE}, {"none", "exact"}, {"sym"})
   \cup CombCases({"fb", "ff"}, {R(2), Q(3, 2)}, {CH}, {TRUE}, {"none"}, {"num"})
+  \cup CombCases({"fb", "ff"}, {Q(1, 4), Q(3, 4), Q(9, 4)}, {C(1), C(-1), C(2)}, {TRUE}, {"none", "exact"}, {"sym"})
   \cup TauCases({R(1), R(2), Q(3, 2), Q(9, 4)}, {TRUE, FALSE}, {"none", "exact"})
   \cup ListCases({"C", "P", "L"}, ArgSetsQ(0), 0)
   \cup PredCases({"C", "P", "L"}, 0)
